@@ -255,6 +255,50 @@ def run(ctx):
                      "this path consumes nothing ('wait for more bytes') although the frame may already be delimited by its own trailer or by the next "
                      "frame: nothing more will arrive for it, so the same bytes are re-examined on every read and every frame behind them is blocked for good",
                      loc(r.ast), sample={"rule": R6, "return_line": r.line, "delimited_flags": sorted(flags)})
+    # ... and the flag those paths trust says "delimited" wherever the closing SOH of the frame's own trailer was found: from the edge on which
+    # that search hit, no path reaches a waiting return without (re)defining the flag, unless what the flag already holds there is implied
+    # by the hit (a definition that mentions `<that search result> != -1` as a disjunct)
+    end_vars = {nm for nm, ks in getattr(dv, "_search_kinds", {}).items() if "end" in ks}
+    n6b = 0
+    for t in g.nodes:
+        if t.kind != "test":
+            continue
+        hit = [lab for lab in ("true", "false") if any(a.split(" ")[0] in end_vars and ((a.endswith("!= -1") and tv) or (a.endswith("== -1") and not tv))
+                                                       for a, tv in facts(t.ast, lab == "true"))]
+        for lab in hit:
+            for f in sorted(flags):
+                fdefs = {n.id for n in g.nodes if n.kind == "stmt" and isinstance(n.ast, ast.Assign) and any(unparse(x) == f for x in n.ast.targets)}
+                n6b += 1
+                implied = True
+                for d in dv.rd[t.id].get(f, set()):
+                    v = getattr(g.nodes[d].ast, "value", None)
+                    disj = v.values if isinstance(v, ast.BoolOp) and isinstance(v.op, ast.Or) else [v]
+                    if not ((isinstance(v, ast.Constant) and v.value is True) or any(
+                            isinstance(x, ast.Compare) and len(x.ops) == 1 and isinstance(x.ops[0], ast.NotEq) and unparse(x.left) in end_vars
+                            and unparse(x.comparators[0]) == "-1" for x in disj)):
+                        implied = False
+                if implied:
+                    continue
+                for r in dv.returns:
+                    if dv.is_message_return(r) or classes[r.id] != "KEEP":
+                        continue
+                    fs = set()
+                    for t2, lab2 in g.guards(r.id, exc=False):
+                        fs |= facts(t2, lab2 == "true")
+                    if (f, False) not in fs:
+                        continue
+                    w = None
+                    for d2, l2 in g.succs(t.id, False):
+                        if l2 == lab and d2 not in fdefs:
+                            w = [d2] if d2 == r.id else g.witness_path(d2, [r.id], avoid=fdefs, exc=False)
+                            if w:
+                                break
+                    ctx.instance(R6, f"Codec.decode[{f} set where the trailer's closing SOH was found: {guard_label(g, r.id, flags)}]", not w,
+                                 f"the closing SOH of the frame's CheckSum trailer was found, but `{f}` is not set on the way to this waiting return: a complete "
+                                 "frame that turns out too short / longer than its BodyLength says is kept in the buffer for good and blocks every frame behind it",
+                                 loc(t.ast))
+    if flags and end_vars and not n6b:
+        raise AnalysisError("decode: the test on the search for the trailer's closing SOH was not found")
     # a delimited frame consumes its own extent, never a BodyLength-derived count
     augs = [n for n in g.nodes if n.kind == "stmt" and isinstance(n.ast, ast.AugAssign) and "BODYLEN" in dv.sources(n.ast.value, n.id)]
     for a in augs:
